@@ -108,7 +108,10 @@ class Gen:
             st["pend"][hid] = n
             st["pos"] += n
             st["bytes"] += n
-            self.ops.append({"ev": "register", "o": o, "n": n, "id": hid})
+            op = {"ev": "register", "o": o, "n": n, "id": hid}
+            if rng.random() < 0.15:
+                op["alias"] = True
+            self.ops.append(op)
         elif x < 0.49 + w_reg + w_fill and st.get("zeros") and rng.random() < 0.5:
             hid = st["zeros"].pop(rng.randrange(len(st["zeros"])))
             self.ops.append({"ev": "backfill", "o": o, "id": hid, "v": 252})
@@ -284,6 +287,18 @@ def scripted_runs(start):
         if k % 3 == 2:
             ops.append({"ev": "advance", "o": 1, "n": 50})
     ops += [{"ev": "read", "o": 1, "n": 10 ** 6}, {"ev": "drop", "o": 1}]
+    run(ops)
+    # a placeholder whose pattern is read from the tip of the object's own arena, with a clone looking on; bytes consumed
+    # before a take, a placeholder pending across it, another one registered on the taken value
+    ops = [{"ev": "new", "o": 1}, {"ev": "push", "o": 1, "m": "copy", "d": [0, 0, 10]}, {"ev": "clone", "o": 1, "to": 2},
+           {"ev": "register", "o": 1, "n": 4, "id": 1, "alias": True}, {"ev": "backfill", "o": 1, "id": 1, "v": 254},
+           {"ev": "read", "o": 2, "n": 100}, {"ev": "read", "o": 1, "n": 100}, {"ev": "drop", "o": 1}, {"ev": "drop", "o": 2}]
+    run(ops)
+    ops = [{"ev": "new", "o": 1}, {"ev": "push", "o": 1, "m": "borrow", "d": [0, 0, 100]}, {"ev": "push", "o": 1, "m": "copy", "d": [0, 100, 20]},
+           {"ev": "consume", "o": 1, "n": 1}, {"ev": "register", "o": 1, "n": 2, "id": 1}, {"ev": "take", "o": 1, "to": 2},
+           {"ev": "register", "o": 2, "n": 2, "id": 2}, {"ev": "push", "o": 2, "m": "copy", "d": [0, 124, 30]},
+           {"ev": "backfill", "o": 2, "id": 2, "v": 253}, {"ev": "backfill", "o": 2, "id": 1, "v": 252},
+           {"ev": "read", "o": 2, "n": 1000}, {"ev": "drop", "o": 1}, {"ev": "drop", "o": 2}]
     run(ops)
     # a zero-byte placeholder filled while a real one is pending
     ops = [{"ev": "new", "o": 1}, {"ev": "push", "o": 1, "m": "copy", "d": [0, 0, 5]}, {"ev": "register", "o": 1, "n": 2, "id": 1},
